@@ -51,9 +51,10 @@
       - [C13_erase_schema_ok]: the reduced schema is itself one that schema.New accepts;
       - [C13_enabling_is_monotone]: erase (erase S F') F = erase S F for F ⊆ F';
       - [C13_enabling_shows_everything]: with every feature enabled nothing is deleted. *)
-From Coq Require Import String List.
+From Coq Require Import String List NArith.
 From ApiFu Require Import Base.Sexp Feat.FeaturesModel Feat.FeaturesSpec Feat.FeaturesProofs Feat.FeaturesReach
-  Feat.FeaturesDocModel Feat.FeaturesDocProofs.
+  Feat.FeaturesDocModel Feat.FeaturesDocProofs Feat.FeaturesFuelProofs.
+From ApiFu Require Vld.Ast Vld.TypeInfoModel Vld.ValidatorModel Feat.FeaturesVld.
 Import ListNotations.
 Open Scope string_scope.
 Open Scope list_scope.
@@ -164,6 +165,91 @@ Theorem C13_set_consumers_disciplined : forall fx S F fuel d,
   (exists r, snd (run fx S F [] (sdoc_validate d)) = Done r) /\
   (exists r, snd (run fx S F [] (sdoc_prog fuel d)) = Done r).
 Proof. exact (fun fx S F fuel d => conj (sdoc_validate_disciplined fx S F d) (sdoc_prog_disciplined fx S F fuel d)). Qed.
+
+(** the fuel of the selection-set executor suffices: [fitsb frs n l] says that the selection set
+    nests at most n levels of fields, inline fragments and expansions of named fragments (such an n
+    exists exactly when no fragment below the operation spreads itself — the validator's cycle
+    rule); then no run with at least n + 2 units of fuel ends in "out of fuel" ([Some None]), on
+    any schema, feature set and repair state.  Together with [C13_feature_exec_eq_sets_partial]:
+    the equation is never the vacuous "out of fuel = out of fuel" for such documents.  The
+    correspondence check evaluates [fitsb] with n = sdoc_fuel d - 2 on every case. *)
+Theorem C13_selection_set_fuel_suffices : forall fx S F d n fuel,
+  fitsb (d_frags d) n (d_sels d) = true -> n + 2 <= fuel ->
+  exists errs r, snd (run fx S F [] (sdoc_prog fuel d)) = Done (errs, r) /\ r <> Some None.
+Proof. exact sdoc_fuel_suffices. Qed.
+
+(** a subscription served over a WebSocket connection (subscribe once, then every event of the
+    source stream executes the selection set on the subscription type), same transcription, same
+    limits; no discipline theorem for this program (a forged pointer would be reported by the check) *)
+Theorem C13_feature_subscription_eq_partial : forall S F G fuel events d,
+  schema_ok S = true -> subset F G = true ->
+  run fixed S F [] (ssub_prog fuel events d) = run fixed (erase S F) G [] (ssub_prog fuel events d).
+Proof. exact subscription_eq. Qed.
+
+(** request feature-set plumbing as the code does it ([ws_effective], FeaturesSpec.v): a WebSocket
+    connection takes Config.Features(ctx) once, at connection_init; afterwards no change of what
+    that function would answer reaches the operations and subscription events of the connection
+    (checked against graphql-ws and graphql-transport-ws sessions whose environment changes right
+    after the acknowledgement) *)
+Theorem C13_ws_features_fixed_at_init : forall h env F,
+  (forall st, In st h -> st <> PInit) ->
+  forall o, In o (ws_effective env (Some F) h) -> o = Some F.
+Proof. exact ws_frozen. Qed.
+
+(** ** composition with C04's validator model (coq/Vld, imported read-only; Feat/FeaturesVld.v)
+
+    C04's [validate_model q pi S F D] takes the feature set and does its own gating.  Full statement
+    wanted, for [vok S] (the feature rules of schema.New in C04's vocabulary) and F ⊆ G:
+        validate_model q pi S F D = validate_model q pi (verase S F) G D     for every document D.
+    Proved from C04's definitions, for every document (arguments, variables, directives and value
+    literals included):
+      - NewTypeInfo fills every slot alike ([C13_C04_type_info_eq]);
+      - the rule groups fragment declarations, arguments, directives (document and operations do not
+        look at the schema) answer alike on any document ([C13_C04_small_rule_groups]);
+      - the rule group variables answers alike on the document NewTypeInfo annotated
+        ([C13_C04_variables_rule]).
+    Open, gap named:
+      - fragment spreads: FALSE on C04's model as it stands — its [possible_types] transcribes
+        getPossibleTypes without the feature filter of the repaired code
+        ([C13_C04_spread_rule_refuted_as_modelled]: the C13 witness in C04's encoding); needs the
+        filter [t_req ⊆ F] over [s_impls] in Vld/ValidatorModel.v, then closes like QPossibleV here;
+      - fields (incl. merging), values: follow from [C13_C04_type_info_eq] once it is
+        shown that every slot of the annotated document (scope, field definition, expected type)
+        holds a type visible to F — the invariant the lemmas of FeaturesVld.v carry
+        through NewTypeInfo ([vis_scope], [vis_field], [vis_osty]) but that is not yet stated on
+        the output document. *)
+Theorem C13_C04_type_info_eq : forall (S : Vld.Ast.schema) (F G : Vld.Ast.features) q (D : Vld.Ast.document),
+  FeaturesVld.vok S = true -> Vld.Ast.subset F G = true ->
+  TypeInfoModel.type_info q (FeaturesVld.verase S F) G D = TypeInfoModel.type_info q S F D.
+Proof. exact (fun S F G q D Hok HFG => FeaturesVld.type_info_erase S F G Hok HFG q D). Qed.
+
+Theorem C13_C04_small_rule_groups : forall (S : Vld.Ast.schema) (F G : Vld.Ast.features) q pi (A : Vld.Ast.document),
+  FeaturesVld.vok S = true -> Vld.Ast.subset F G = true ->
+  ValidatorModel.rule_fragment_declarations pi (FeaturesVld.verase S F) G A
+  = ValidatorModel.rule_fragment_declarations pi S F A /\
+  ValidatorModel.rule_arguments q pi (FeaturesVld.verase S F) A = ValidatorModel.rule_arguments q pi S A /\
+  ValidatorModel.rule_directives q (FeaturesVld.verase S F) A = ValidatorModel.rule_directives q S A.
+Proof. exact (fun S F G q pi A Hok HFG => FeaturesVld.rules_small_erase S F G Hok HFG q pi A). Qed.
+
+(** validateVariables reads the schema only for the input-type test of a variable's resolved type,
+    a slot NewTypeInfo fills with types visible to F: on the annotated document it answers alike *)
+Theorem C13_C04_variables_rule : forall (S : Vld.Ast.schema) (F G : Vld.Ast.features) q pi (D A : Vld.Ast.document),
+  FeaturesVld.vok S = true -> Vld.Ast.subset F G = true ->
+  TypeInfoModel.type_info q S F D = Some A ->
+  ValidatorModel.rule_variables pi (FeaturesVld.verase S F) A = ValidatorModel.rule_variables pi S A.
+Proof. exact (fun S F G q pi D A Hok HFG => FeaturesVld.rule_variables_erase S F G Hok HFG q pi D A). Qed.
+
+Theorem C13_C04_spread_rule_refuted_as_modelled :
+  FeaturesVld.vok FeaturesVld.VW = true /\ Vld.Ast.subset nil (cons FeaturesVld.vfa nil) = true /\
+  ValidatorModel.validate_model ValidatorModel.repaired ValidatorModel.id_order FeaturesVld.VW nil FeaturesVld.VD
+  = Vld.Ast.Done nil /\
+  ValidatorModel.validate_model ValidatorModel.repaired ValidatorModel.id_order
+      (FeaturesVld.verase FeaturesVld.VW nil) (cons FeaturesVld.vfa nil) FeaturesVld.VD
+  = Vld.Ast.Done (cons {| Vld.Ast.e_locs := cons (FeaturesVld.vp 1%N 14%N) nil; Vld.Ast.e_sec := false;
+                                 Vld.Ast.e_kind := Vld.Ast.ESpreadImpossible |} nil) /\
+  TypeInfoModel.type_info true FeaturesVld.VW nil FeaturesVld.VD
+  = TypeInfoModel.type_info true (FeaturesVld.verase FeaturesVld.VW nil) (cons FeaturesVld.vfa nil) FeaturesVld.VD.
+Proof. exact FeaturesVld.spreads_refuted. Qed.
 
 (** the reference exists: the reduced schema is accepted by schema.New *)
 Theorem C13_erase_schema_ok : forall S F, schema_ok S = true -> schema_ok (erase S F) = true.
@@ -294,6 +380,13 @@ Print Assumptions C13_chain_consumers_disciplined.
 Print Assumptions C13_feature_validate_eq_sets_partial.
 Print Assumptions C13_feature_exec_eq_sets_partial.
 Print Assumptions C13_set_consumers_disciplined.
+Print Assumptions C13_selection_set_fuel_suffices.
+Print Assumptions C13_feature_subscription_eq_partial.
+Print Assumptions C13_ws_features_fixed_at_init.
+Print Assumptions C13_C04_type_info_eq.
+Print Assumptions C13_C04_small_rule_groups.
+Print Assumptions C13_C04_variables_rule.
+Print Assumptions C13_C04_spread_rule_refuted_as_modelled.
 Print Assumptions C13_erase_schema_ok.
 Print Assumptions C13_enabling_is_monotone.
 Print Assumptions C13_enabling_shows_everything.
